@@ -19,9 +19,16 @@ OBLIGATIONS = [
     "KafVerif.C28.reply_depends_only_on_own_request",
     "KafVerif.C28.coalescing_sound_if_key_determines_load",
     "KafVerif.C28.names_key_coalescing_violates",
+    "KafVerif.C28.session_reply_from_current_snapshot",
+    "KafVerif.C28.session_ignores_cache",
+    "KafVerif.C28.name_cache_sound_if_agrees",
+    "KafVerif.C28.name_cache_sound_iff_agrees",
+    "KafVerif.C28.fresh_cache_agrees_on_wellformed_snapshot",
+    "KafVerif.C28.stale_name_cache_violates",
     "KafVerif.C28.old_violates",
 ]
 ASSUMPTIONS = [
+    "sessions: one proxy per case; its caches are filled only through the real refreshMetadataCache / currentBackends / resolveTopicID (the ops `warm`, `resolve`); the snapshot changes through InMemoryStore.Update (what the etcd watch does); state a changed proxy might build from other request kinds (Produce/Fetch/ApiVersions traffic) is not driven",
     "concurrency: overlapping Metadata requests are exercised with the first request held inside store.Metadata until the other 1-3 are in flight (or 60 ms); other interleavings (e.g. overlap only after the store read) are not enumerated",
     "the metadata store is InMemoryStore.Metadata/filterTopics (EtcdStore.Metadata delegates to it); snapshot topics carry a name (a nil name pointer panics inside the store, outside this property)",
     "kmsg codec and its field/version table (`wire` in the model) are trusted; the harness compares what a kmsg client decodes from the reply bytes",
@@ -49,11 +56,32 @@ def ints(rng, lo=0, hi=3):
     return "+".join(str(rng.choice(NODE_IDS)) for _ in range(n)) if n else "-"
 
 
-def gen_snapshot(rng):
+def gen_parts(rng):
+    parts = []
+    for j in range(rng.choice([0, 1, 1, 2, 3, 5])):
+        pid = j if rng.chance(5, 6) else rng.range(0, 40)
+        parts.append("%d:%d:%d:%d:%s:%s:%s" % (
+            pid, 0 if rng.chance(3, 4) else rng.choice([5, 6, 9]), rng.choice(NODE_IDS),
+            rng.choice([0, 1, 5, -1, 2147483647, 17]), ints(rng, 0, 3), ints(rng, 0, 2), ints(rng, 0, 2) if rng.chance(1, 3) else "-"))
+    return ",".join(parts) or "-"
+
+
+def snap_line(head, topics):
+    return "snap %s topics=%s" % (head, ";".join("|".join(t) for t in topics) or "-")
+
+
+def snap_ids(topics):
+    """(names, ids as a request spells them) of a snapshot: a topic without id is served under #name."""
+    names = [t[0] for t in topics]
+    tids = [t[1] if t[1] != "0" else "#" + t[0] for t in topics]
+    return names, tids
+
+
+def gen_snapshot(rng, min_topics=0):
     nb = rng.choice([0, 1, 2, 3, 3, 5])
     brokers = ",".join("%d:%s:%d" % (rng.choice(NODE_IDS), rng.choice(["b1", "broker-2.svc", "10.0.0.3", "^"]),
                                      rng.choice([9092, 9093, 0, 19092])) for _ in range(nb)) or "-"
-    nt = rng.choice([0, 1, 2, 3, 4, 6])
+    nt = max(min_topics, rng.choice([0, 1, 2, 3, 4, 6]))
     topics, used = [], []
     for i in range(nt):
         name = rng.choice(NAMES) if rng.chance(1, 5) else NAMES[i % len(NAMES)]
@@ -62,18 +90,53 @@ def gen_snapshot(rng):
         tid = rng.choice(used) if (used and rng.chance(1, 8)) else (0 if rng.chance(1, 3) else rng.range(1, 30))
         used.append(tid)
         err = 0 if rng.chance(3, 4) else rng.choice([3, 5, 9, 29, 100, -1])
-        parts = []
-        for j in range(rng.choice([0, 1, 1, 2, 3, 5])):
-            pid = j if rng.chance(5, 6) else rng.range(0, 40)
-            parts.append("%d:%d:%d:%d:%s:%s:%s" % (
-                pid, 0 if rng.chance(3, 4) else rng.choice([5, 6, 9]), rng.choice(NODE_IDS),
-                rng.choice([0, 1, 5, -1, 2147483647, 17]), ints(rng, 0, 3), ints(rng, 0, 2), ints(rng, 0, 2) if rng.chance(1, 3) else "-"))
-        topics.append("%s|%d|%d|%d|%s" % (name, tid, err, 1 if rng.chance(1, 6) else 0, ",".join(parts) or "-"))
-    line = "snap brokers=%s ctrl=%d cluster=%s topics=%s" % (
-        brokers, rng.choice(NODE_IDS), rng.choice(["~", "cl-1", "^", "kafscale"]), ";".join(topics) or "-")
-    names = [t.split("|")[0] for t in topics]
-    tids = [t.split("|")[1] if t.split("|")[1] != "0" else "#" + t.split("|")[0] for t in topics]
-    return line, names, tids
+        topics.append([name, str(tid), str(err), "1" if rng.chance(1, 6) else "0", gen_parts(rng)])
+    head = "brokers=%s ctrl=%d cluster=%s" % (brokers, rng.choice(NODE_IDS), rng.choice(["~", "cl-1", "^", "kafscale"]))
+    return head, topics
+
+
+def derive_snapshot(rng, topics):
+    """The cluster metadata moves on under the running proxy: 1-2 of delete a topic / re-create it under a
+    new id / rename it (id kept) / swap the names of two topics / add a topic / change its partitions.
+    Returns (new topics, ids and names touched)."""
+    topics = [list(t) for t in topics]
+    touched_ids, touched_names = [], []
+    fresh_names = ["renamed", "new-topic", "orders.v2", "zz"]
+    for _ in range(rng.choice([1, 1, 2])):
+        k = rng.below(7) if topics else 4
+        i = rng.below(len(topics)) if topics else 0
+        if topics:
+            nm, tid = topics[i][0], (topics[i][1] if topics[i][1] != "0" else "#" + topics[i][0])
+            touched_ids.append(tid)
+            touched_names.append(nm)
+        if k <= 1:      # deleted
+            del topics[i]
+        elif k == 2:    # deleted and re-created under the same name: new id, new partitions / epochs
+            topics[i][1] = str(rng.range(41, 60)) if (topics[i][1] == "0" or rng.chance(2, 3)) else "0"
+            topics[i][4] = gen_parts(rng)
+            if rng.chance(1, 2):
+                topics.append(topics.pop(i))
+        elif k == 3:    # renamed: same id (a derived id is pinned), new name
+            topics[i][1] = tid
+            topics[i][0] = rng.choice([n for n in fresh_names + NAMES if n not in [t[0] for t in topics]] or ["renamed"])
+            touched_names.append(topics[i][0])
+        elif k == 4:    # added
+            nn = rng.choice(fresh_names + NAMES)
+            topics.insert(rng.range(0, len(topics)), [nn, str(rng.choice([0, rng.range(41, 60)])), "0", "0", gen_parts(rng)])
+            touched_names.append(nn)
+        elif k == 5 and len(topics) >= 2:   # two topics swap names (each id now belongs to the other name)
+            j = (i + 1 + rng.below(len(topics) - 1)) % len(topics)
+            for x in (i, j):
+                if topics[x][1] == "0":
+                    topics[x][1] = "#" + topics[x][0]
+            topics[i][0], topics[j][0] = topics[j][0], topics[i][0]
+            touched_ids.append(topics[j][1])
+            touched_names.append(topics[i][0])
+        else:           # same topic, partitions / leader epochs / error code move on
+            topics[i][4] = gen_parts(rng)
+            if rng.chance(1, 4):
+                topics[i][2] = str(rng.choice([0, 3, 9]))
+    return topics, touched_ids, touched_names
 
 
 def gen_request(rng, names, tids):
@@ -139,15 +202,93 @@ def gen_par(rng, names, tids):
     return "par " + " ".join(items)
 
 
+def by_id_spec(rng, ids, names=None):
+    ents = []
+    for t in ids:
+        nm = "~" if (not names or rng.chance(4, 5)) else rng.choice(names)
+        ents.append("%s@%s" % (nm, t))
+    return ",".join(ents)
+
+
+def gen_after_change(rng, cached, touched_ids, touched_names, names, tids):
+    """Requests issued after the snapshot moved on: every id the proxy may have cached, the touched ids alone and
+    in mixes (cached-only subsets, cached + never-seen ids, with a zero-id entry), the touched names, all topics."""
+    out = []
+    cached = list(dict.fromkeys(cached))
+    hot = [t for t in dict.fromkeys(touched_ids) if t in cached]
+    v = lambda: rng.choice([10, 11, 12, 12])
+    if cached:
+        out.append("meta %d %s" % (v(), by_id_spec(rng, cached)))
+    for t in hot[:2]:
+        out.append("meta %d %s" % (v(), by_id_spec(rng, [t])))
+    if cached:
+        sub = [t for t in cached if rng.chance(1, 2)] or [rng.choice(cached)]
+        if hot and rng.chance(2, 3):
+            sub.insert(rng.range(0, len(sub)), rng.choice(hot))
+        out.append("meta %d %s" % (v(), by_id_spec(rng, sub, names)))
+        k = rng.below(4)
+        if k == 0:      # one id the proxy has never seen among cached ones
+            sub = sub + [str(rng.range(61, 70))]
+        elif k == 1:    # a name-only entry among them (dropped by the by-id arm)
+            sub = sub + ["0"]
+        elif k == 2:    # ids of the new snapshot
+            sub = sub + [rng.choice(tids)] if tids else sub
+        for a in range(len(sub) - 1, 0, -1):     # Fisher-Yates from the seeded rng
+            b = rng.below(a + 1)
+            sub[a], sub[b] = sub[b], sub[a]
+        out.append("meta %d %s" % (v(), ",".join("%s@%s" % ("~" if t != "0" else rng.choice(names or NAMES), t) for t in sub)))
+    nms = list(dict.fromkeys(touched_names))[:3]
+    if nms:
+        out.append("meta %d %s" % (rng.choice(VERSIONS), ",".join("%s@0" % n for n in nms)))
+    out.append("meta %d all" % rng.choice([1, 9, 12]))
+    return out
+
+
 def gen_case(rng, nreq):
+    """One session on ONE proxy: snapshot A, cold requests, cache refresh, requests, snapshot B derived from A,
+    requests by the ids/names of A and B, (refresh / resolve, snapshot C, requests)*, overlapping batches,
+    not-ready and coordinator replies."""
     ops = ["cfg %s %d" % (rng.choice(["proxy.example.com", "p", "^", "10.1.2.3"]), rng.choice([9092, 1, 65535, 19092]))]
-    snap, names, tids = gen_snapshot(rng)
-    ops.append(snap)
-    for _ in range(nreq):
+    head, topics = gen_snapshot(rng, min_topics=1 if rng.chance(5, 6) else 0)
+    ops.append(snap_line(head, topics))
+    names, tids = snap_ids(topics)
+    for _ in range(max(1, nreq // 3)):
         v, r = gen_request(rng, names, tids)
         ops.append("meta %d %s" % (v, r))
-    for _ in range(2):
-        ops.append(gen_par(rng, names, tids))
+    seen_names, seen_ids = list(names), list(tids)
+    cached = []
+    for rnd in range(rng.choice([1, 1, 2])):
+        # the proxy fills its caches from the snapshot in force (real refresh paths)
+        how = rng.below(6)
+        if rnd > 0 and how == 0:
+            pass                                    # no refresh between two snapshot changes
+        elif how <= 3:
+            ops.append("warm refresh")
+            cached = [t for n, t in zip(names, tids) if n != "^"]
+        elif how == 4:
+            ops.append("warm backends")
+            cached = [t for n, t in zip(names, tids) if n != "^"]
+        else:
+            t = rng.choice(seen_ids) if seen_ids else "7"
+            ops.append("resolve %s" % t)
+            if t not in cached:
+                cached = [t for n, t in zip(names, tids) if n != "^"]
+        if cached and rng.chance(1, 2):
+            ops.append("meta %d %s" % (rng.choice([10, 12]), by_id_spec(rng, list(dict.fromkeys(cached)))))
+        # the cluster metadata moves on
+        topics, touched_ids, touched_names = derive_snapshot(rng, topics)
+        if rng.chance(1, 6):
+            head = gen_snapshot(rng)[0]
+        ops.append(snap_line(head, topics))
+        names, tids = snap_ids(topics)
+        seen_names += names
+        seen_ids += tids
+        ops += gen_after_change(rng, cached, touched_ids, touched_names, names, tids)
+        for _ in range(max(1, nreq // 3)):
+            v, r = gen_request(rng, seen_names, seen_ids)
+            ops.append("meta %d %s" % (v, r))
+    ops.append(gen_par(rng, seen_names, cached or seen_ids))
+    ops.append(gen_par(rng, names, tids))
     v, r = gen_request(rng, names, tids)
     ops.append("nrmeta %d %s" % (v, r))
     ops.append("coord %d" % rng.choice([3, 3, 0, 1, 2]))
@@ -190,10 +331,19 @@ def run_monitor(ck, ops, impl, tag):
 
 
 def context_ops(ops, i):
-    """cfg + snap in force at op i, plus op i."""
-    cfg = [o for o in ops[:i] if o.startswith("cfg")][-1:]
-    snap = [o for o in ops[:i] if o.startswith("snap")][-1:]
-    return cfg + snap + [ops[i]]
+    """The whole session op i belongs to: everything from the `cfg` that started its proxy up to op i (earlier
+    snapshots, cache refreshes and requests included — a reply may only depend on the last snapshot, and the
+    replay must be able to show that it does not)."""
+    j = i
+    while j > 0 and not ops[j].startswith("cfg"):
+        j -= 1
+    return ops[j:i + 1]
+
+
+def case_key(ops, i):
+    """Distinctness of a case: advertised address, the sequence of snapshots / refreshes so far, the request."""
+    ctx = context_ops(ops, i)
+    return tuple([o for o in ctx[:-1] if not is_reply_op(o)] + [ctx[-1]])
 
 
 def examine(ck, ops, impl, model, verdicts, hunting=False):
@@ -213,7 +363,16 @@ def examine(ck, ops, impl, model, verdicts, hunting=False):
             ck.count("req_" + form)
         ctx = context_ops(ops, i)
         nontriv = kind in ("meta", "par") and "topics=-" not in impl[i] and impl[i].startswith(kind + " ")
-        ck.case(tuple(ctx), nontrivial=nontriv, sample={"ops": ctx, "impl": impl[i]})
+        ck.case(case_key(ops, i), nontrivial=nontriv, sample={"ops": ctx, "impl": impl[i]})
+        state = [o.split()[0] for o in ctx[:-1] if o.split()[0] in ("snap", "warm", "resolve")]
+        if kind in ("meta", "par") and ("warm" in state or "resolve" in state):
+            last_fill = max(k for k, x in enumerate(state) if x in ("warm", "resolve"))
+            if "snap" in state[last_fill:]:
+                ck.count("requests_after_snapshot_change_with_warm_cache")
+            else:
+                ck.count("requests_with_fresh_cache")
+        if verdicts[i] == "ok cache-would-differ":
+            ck.count("requests_where_name_cache_answer_would_differ")
         if impl[i] in ("panic", "err", "undecodable", "bad-op"):
             ck.count("impl_" + impl[i])
         v = verdicts[i]
@@ -232,12 +391,15 @@ def run(ck):
     if bins is None:
         return
     binary = bins["h"]
-    ncases = 150 if ck.quick() else 1500
-    ck.cov["rule"] = ("cases = (advertised address, generated snapshot, request) triples from VERIF_SEED; requests: all / empty / "
+    ncases = 100 if ck.quick() else 1200
+    ck.cov["rule"] = ("cases = replies of SESSIONS on one proxy, from VERIF_SEED: advertised address, snapshot A, requests, real cache "
+                      "refresh (refreshMetadataCache / currentBackends / resolveTopicID), snapshot B derived from A (topic deleted / "
+                      "re-created under a new id / renamed / names swapped / added / partitions changed), requests by every cached id, "
+                      "by the touched ids alone and mixed, by name, all — possibly a second refresh + change; requests: all / empty / "
                       "by name / by id / mixed at Metadata versions 0-12, not-ready Metadata, FindCoordinator, and batches of "
-                      "2-4 OVERLAPPING Metadata requests (store read gated until all are in flight; each reply checked against "
-                      "its own request); a case is "
-                      "non-trivial when the reply lists at least one topic; distinct = distinct (cfg, snapshot, request) triples")
+                      "2-4 OVERLAPPING Metadata requests (store read gated until all are in flight); every reply is checked against "
+                      "its own request and the snapshot in force when it was issued; a case is non-trivial when the reply lists at "
+                      "least one topic; distinct = distinct (cfg, snapshot/refresh history, request)")
     ops = []
     import glob, os
     for f in sorted(glob.glob(os.path.join(lib.REPLAYS, "C28-*.json"))):   # corpus first
